@@ -446,9 +446,16 @@ func schedStream(p *SchedProg) (string, int) {
 	defer cancel()
 	creations := 0
 	var fake *sfake
-	failFirst := p.Extra%3 == 1
+	// independent variant digits
+	senderPresent := p.Extra%4 != 3 // in one variant out of four nobody ever sends: only the end of the context can release the receivers
+	cancelPresent := (p.Extra/4)%2 == 0 || !senderPresent
+	headerPresent := (p.Extra/8)%2 == 0
+	failFirst := (p.Extra/16)%3 == 1
 	streamer := func(sctx context.Context, d *grpc.StreamDesc, cc *grpc.ClientConn, method string, o ...grpc.CallOption) (grpc.ClientStream, error) {
 		creations++
+		if sp := activeSched.Load(); sp != nil {
+			sp.Pause("inside-streamer") // stream creation takes a while: other methods may be issued meanwhile
+		}
 		if failFirst && creations == 1 {
 			return nil, errors.New("creation failed")
 		}
@@ -464,7 +471,7 @@ func schedStream(p *SchedProg) (string, int) {
 	var sendErrs []error
 	var recvErr, hdrErr error
 	recvDone, hdrDone := false, false
-	if p.Extra%4 != 3 { // in one variant out of four nobody ever sends: only the end of the context can release the receivers
+	if senderPresent {
 		s.Go("sender", func() {
 			sendErrs = append(sendErrs, cs.SendMsg(m1))
 			s.Pause("between-sends")
@@ -475,7 +482,7 @@ func schedStream(p *SchedProg) (string, int) {
 		recvErr = cs.RecvMsg(r1)
 		recvDone = true
 	})
-	if p.Extra%2 == 0 {
+	if headerPresent {
 		s.Go("header", func() {
 			_, hdrErr = cs.Header()
 			hdrDone = true
@@ -483,7 +490,7 @@ func schedStream(p *SchedProg) (string, int) {
 	} else {
 		hdrDone = true
 	}
-	if p.Extra%5 != 4 || p.Extra%4 == 3 {
+	if cancelPresent {
 		s.Go("cancel", func() {
 			s.Pause("before-cancel")
 			cancel()
